@@ -405,11 +405,10 @@ func (c *Client) recv(keepaliveQuit chan<- struct{}) {
 				Space: stanza.NSStreamManagement,
 				Local: "a",
 			}, H: c.Session.SMState.Inbound}
-			err = c.Send(answer)
-			if err != nil {
-				c.ErrorHandler(err)
-				return
-			}
+			// A write only fails once the peer has closed or reset the connection. The stanzas that were
+			// already received are still routed, and the read that fails next reports the loss (error
+			// callback and Disconnected event, once) - so a failed answer is not reported separately.
+			_ = c.Send(answer)
 		case stanza.StreamClosePacket:
 			// TCP messages should arrive in order, so we can expect to get nothing more after this occurs
 			c.transport.ReceivedStreamClose()
